@@ -9,6 +9,8 @@ from contracts import c02_rxn_add_metabolites as RAM
 from contracts import c02_add_reactions as AR
 from contracts import c02_remove_reactions_ctx as RRC
 from contracts import c12_rxn_arith as ARITH
+from contracts import c02_add_metabolites_ctx as AMC
+from contracts import c02_remove_metabolites_ctx as RMC
 from props._generic import run_property, replay_with_driver
 
 LEVEL = "other"
@@ -31,8 +33,9 @@ KEYS_RR = ["Model.remove_reactions"]
 def run(rep):
     run_property(rep, KEYS, more=[(RENAME_KEYS, c02_rename.HOOKS), (BOUNDARY_KEYS, c02_boundary.HOOKS), (KEYS_UG, U.HOOKS), (KEYS_AM, AM.HOOKS),
                                    (KEYS_RR, RR.HOOKS), (GR.KEYS, GR.HOOKS), (RM.KEYS, RM.HOOKS), (RAM.KEYS, RAM.HOOKS),
-                                   (RAM.KEYS_SUB, RAM.HOOKS_SUB), (AR.KEYS, AR.HOOKS), (RRC.KEYS, RRC.HOOKS)] + list(ARITH.GROUPS),
-                 lemmas=lambda: U.lemmas() + RAM.lemmas() + RRC.lemmas() + ARITH.lemmas(), explanation=(
+                                   (RAM.KEYS_SUB, RAM.HOOKS_SUB), (AR.KEYS, AR.HOOKS), (RRC.KEYS, RRC.HOOKS),
+                                   (AMC.KEYS, AMC.HOOKS), (RMC.KEYS, RMC.HOOKS)] + list(ARITH.GROUPS),
+                 lemmas=lambda: U.lemmas() + RAM.lemmas() + RRC.lemmas() + ARITH.lemmas() + AMC.lemmas() + RMC.lemmas(), explanation=(
         "Deductive part: the clauses `identifiers are unique` and `every listed object is the one found by looking up its "
         "identifier` hold because every model edit changes model.reactions/metabolites/genes/groups only through the DictList "
         "operations listed here, each proved (C15 contracts, unbounded) to preserve the representation invariant and to produce "
@@ -148,13 +151,17 @@ def run(rep):
         "operand untouched; in a model without context the EFFECT through the proved add_metabolites contract), __mul__ / __add__ / "
         "__sub__ (copies by the proved Reaction.copy contract, the in-place operator applied to the copy only, operands and every "
         "existing object unchanged). "
+        "Model.add_metabolites and Model.remove_metabolites WITH a context open (lists and models of any size, any depth of the context stack; remove: a list or one metabolite, keeping the reactions or destructive): the final state exactly as their no-context contracts state it, plus the undo registrations as a ghost trace, all in the innermost context, nothing else and nothing twice - add: one x._reaction.update(S) per joining metabolite that lost back-references, S exactly the set taken out, then metabolites.__isub__(the joining metabolites), then setattr(x, _model, None) per joining metabolite, and nothing at all on the two early exits; remove: one g.add_members([x]) per (handled metabolite, group of the model that contained it), then metabolites.__iadd__(the handled metabolites), then setattr(x, _model, model) per handled metabolite; the constraint side is the recorded add_cons_vars / remove_cons_vars call whose own registration C03 proves, subtract_metabolites is called with the default reversibly, remove_from_model = remove_reactions in context; glue lemmas undo-restores (membership in model.metabolites as a set, back references resp. group members, model pointers - the last under the stated hypothesis that a joining metabolite had no model resp. a removed one pointed at the model). Stated preconditions: those of the no-context contracts, pairwise different items as a ghost inverse map, destructive list case: a reaction is not a listed metabolite; assumed at the call site: get_associated_groups returns no duplicates. "
         "The documented effect of each other public "
         "editing operation on stoichiometry, gene sets, back-references and groups (add_reactions inside a context, "
         "remove_genes/rename_genes, merge), the parsing of the rule text and what the "
         "registered undo functions do when they run are NOT "
         "proved - those functions mix sympy/optlang calls, string parsing and nested loops outside the supported subset: bounded "
         "driver (histories compared step by step with an executable reference description + Inv_XRef after every step)."),
-        trusted=["CPython list/dict semantics as axiomatised", "copy.deepcopy returns a fresh detached object (assumed)",
+        trusted=["add_metabolites / remove_metabolites in a context: context(f) = HistoryManager.__call__ by its proved contract, recorded "
+                 "in a ghost trace; the list returned by Model.get_associated_groups has no duplicates (assumed consequence of its proved "
+                 "post-condition); the trace clauses are stated under a free Boolean gate (proved for both values)",
+                 "CPython list/dict semantics as axiomatised", "copy.deepcopy returns a fresh detached object (assumed)",
                  "reverse_id is a function of the current id; model.variables[...] finds the reaction's variables (assumed getters)",
                  "add_boundary: Reaction constructor stores id/name/bounds as given with an empty annotation dict; "
                  "find_external_compartment, Reaction.add_metabolites, Model.add_reactions abstract (ghost trace); f-strings as opaque "
